@@ -46,18 +46,24 @@ def setMI (m : List (String × MI)) (k : String) (f : Option MI → MI) : List (
   | some (_, v) => m.map (fun (k', v') => if k' = k then (k', f (some v)) else (k', v'))
   | none => m ++ [(k, f none)]
 
+def upd1 (wi i : Nat) : Option MI → MI
+  | none => ⟨wi, i, -1⟩
+  | some mi => ⟨wi, i, mi.second⟩
+
+def upd2 (wi i : Nat) : Option MI → MI
+  | none => ⟨wi, -1, i⟩
+  | some mi => ⟨wi, mi.first, i⟩
+
 def mergeDicts (rd1 rd2 : List Ident) : List (String × MI) × List String :=
   let ws := walks rd1 rd2
   let join := fun (i : Ident) => "|".intercalate i
   let idx := ws.zipIdx.foldl (fun m (ids, wi) =>
     ids.foldl (fun m key =>
       let m := match lastIdx rd1 key with
-        | some i => setMI m (join (rd1.getD i [])) (fun o => match o with
-            | none => ⟨wi, i, -1⟩ | some mi => ⟨wi, i, mi.second⟩)
+        | some i => setMI m (join (rd1.getD i [])) (upd1 wi i)
         | none => m
       match lastIdx rd2 key with
-        | some i => setMI m (join (rd2.getD i [])) (fun o => match o with
-            | none => ⟨wi, -1, i⟩ | some mi => ⟨wi, mi.first, i⟩)
+        | some i => setMI m (join (rd2.getD i [])) (upd2 wi i)
         | none => m) m) []
   (idx, ws.map join)
 
